@@ -47,6 +47,7 @@ type Style struct {
 	BlankLines       bool   // blank lines between properties
 	SpaceBeforeColon bool
 	ColonGap         int               // >0: what stands between a key and its colon: 1 a tab, 2 a line break and the indentation, 3 two blanks
+	ValueNextLine    int               // >0: inside multi-line annotations every ValueNextLine-th rule value stands on the line after its name
 	TightAnn         bool              // no blank between a value and the annotation that follows it
 	TightComments    bool              // end-of-line user comments start right after the value (no blank), every other one as a ### block ###
 	SplitAnn         int               // >0: every SplitAnn-th node with two rules or more (or rules and a note) gets two annotations: a multi-line one closing on the next line and a second one starting on that closing line
@@ -73,6 +74,7 @@ type printer struct {
 	be       int  // empty-container counter (BlankInEmpty)
 	ng       int  // rule-name counter (NameGap)
 	sa       int  // split-annotation counter
+	vn       int  // rule-value counter (ValueNextLine)
 	br       int  // rule counter (BlockInRules)
 	afterArr bool // a non-empty array was closed and no value has begun since (annotations are not taken there)
 	ann      int  // annotation counter (MixedAnn)
@@ -334,7 +336,18 @@ func (p *printer) ruleObject(rules []ref.SRule, spread bool, level int) {
 				p.w([]string{" ", "\t", " \t"}[(p.ng/p.st.NameGap)%3])
 			}
 		}
-		p.w(": ")
+		p.w(":")
+		brk := false
+		if p.st.ValueNextLine > 0 && p.inMulti {
+			p.vn++
+			brk = p.vn%p.st.ValueNextLine == 0
+		}
+		if brk {
+			p.w(p.st.NL)
+			p.indent(level + 3)
+		} else {
+			p.w(" ")
+		}
 		p.ruleValue(r, spread, level)
 	}
 	if p.st.TrailingComma && len(rules) > 0 {
